@@ -92,10 +92,16 @@ def _transform_mp_worker(queue, done_event, pio_in, pio_out, make_buf, do_one):
     buf = make_buf()
 
     while True:
+        # Test the shutdown flag *before* waiting on the queue. The flag is
+        # only raised once every item has been flushed into the queue, so a
+        # timeout that follows a raised flag means the queue is drained;
+        # testing it after the timeout could drop items queued in between.
+        done = done_event.is_set()
+
         try:
             pos = queue.get(True, timeout=1)
         except Empty:
-            if done_event.is_set():
+            if done:
                 break
             continue
 
